@@ -72,7 +72,7 @@ contract('pyx12.error_997.error_997_visitor._write',
                   'self.fd.log[:-1] == old(self.fd.log)'] + FRAME,
          raises={},
          modifies=['seg_count', 'fd.log'],
-         ghost={'probes': SEG_PROBES}, build='build_vis_write',
+         ghost={'probes': SEG_PROBES, 'search': {'self/.seg_count': [0, 3, 41]}}, build='build_vis_write',
          serves=['C06'],
          note='every segment of the acknowledgement goes through _write exactly once and is counted once: SE01 = seg_count + 1 is taken '
               'from this counter in visit_gs_post')
@@ -99,6 +99,8 @@ contract('pyx12.error_997.error_997_visitor.visit_gs_pre',
                   'len(self.fd.log) == len(old(self.fd.log)) + 2'],
          raises={},
          alias=ABS_SEG, build='build_vis_gs_pre',
+         ghost={'search': {'self/.seg_count': [0, 3, 41], 'self/.st_control_num': [0, 1, 9999], 'err_gs/.fic': ['HC', ''],
+                           'err_gs/.gs_control_num': ['1', '']}},
          serves=['C06'],
          note='opening an acknowledgement set writes exactly ST and AK1 and leaves the counter at 2 = segments of the open set '
               '(ST included): the counter invariant that visit_gs_post turns into SE01')
@@ -111,6 +113,8 @@ contract('pyx12.error_997.error_997_visitor.visit_st_pre',
                   'self.fd.log[:-1] == old(self.fd.log)'] + FRAME,
          raises={'EngineError': 'err_st.trn_set_id is None', 'AttributeError': 'err_st.trn_set_id is not None and err_st.trn_set_control_num is None'},
          alias=ABS_SEG, build='build_vis_st_pre',
+         ghost={'search': {'err_st/.trn_set_control_num': ['0001', '0000000001', ' 12 ', '', 'A*B'], 'err_st/.trn_set_id': ['837', ''],
+                           'self/.seg_count': [0, 3, 41]}},
          serves=['C06'],
          note='AK2: one segment written and counted.  The two exceptional outcomes (an err_st whose ST01/ST02 are None) are stated '
               'exactly, not excluded; whether the validator can hand over such an err_st is decided by the pipeline stand-in, not here')
